@@ -84,3 +84,61 @@ func (g *BadE2) BindLocalStream(_ *interceptor.StreamInfo, w interceptor.RTPWrit
 		return w.Write(h, p, a)
 	})
 }
+
+// ---- E3: equality trigger ------------------------------------------------------------------------------------------------
+
+type batcher struct {
+	mu    sync.Mutex
+	batch []uint16
+	limit int
+}
+
+func flush(b []uint16) []uint16 {
+	if len(b) > 0 && b[0] == 0 {
+		return nil
+	}
+	return b
+}
+
+type GoodE3 struct {
+	interceptor.NoOp
+	st batcher
+}
+
+func (g *GoodE3) BindLocalStream(_ *interceptor.StreamInfo, w interceptor.RTPWriter) interceptor.RTPWriter {
+	return interceptor.RTPWriterFunc(func(h *rtp.Header, p []byte, a interceptor.Attributes) (int, error) {
+		g.st.mu.Lock()
+		g.st.batch = append(g.st.batch, h.SequenceNumber)
+		if len(g.st.batch) == g.st.limit {
+			_ = flush(g.st.batch)
+			g.st.batch = nil
+		}
+		g.st.mu.Unlock()
+		return w.Write(h, p, a)
+	})
+}
+
+type BadE3 struct {
+	interceptor.NoOp
+	st batcherBadE3
+}
+
+type batcherBadE3 struct {
+	mu    sync.Mutex
+	batch []uint16
+	limit int
+}
+
+func (g *BadE3) BindLocalStream(_ *interceptor.StreamInfo, w interceptor.RTPWriter) interceptor.RTPWriter {
+	return interceptor.RTPWriterFunc(func(h *rtp.Header, p []byte, a interceptor.Attributes) (int, error) {
+		g.st.mu.Lock()
+		g.st.batch = append(g.st.batch, h.SequenceNumber)
+		if len(g.st.batch) == g.st.limit {
+			if out := flush(g.st.batch); out != nil {
+				g.st.batch = nil
+			}
+		}
+		g.st.mu.Unlock()
+		return w.Write(h, p, a)
+	})
+}
